@@ -195,6 +195,17 @@ func sameContent(a, b *model.V) bool {
 	return model.Equal(a.Canon(model.SortLexical), b.Canon(model.SortLexical))
 }
 
+func noSlashKeys(v *model.V) {
+	for i, k := range v.Keys {
+		if k == "/" {
+			v.Keys[i] = "slash"
+		}
+	}
+	for _, x := range v.Vals {
+		noSlashKeys(x)
+	}
+}
+
 // flatten replaces every loaded link of an expanded tree by its content (dangling links stay).
 func flatten(v *model.V) *model.V {
 	if v == nil {
@@ -659,6 +670,9 @@ func (S) RunTape(t *sim.Tape, st *sim.Stats, keepLog bool) *sim.Outcome {
 					}
 					b := 5
 					v := gen.Value(t, gen.DagJson, nil, &b, 1) // inside both block codecs' domains
+					// ... and staying there under later deletes: a map that keeps only its "/" entry is
+					// dag-json's reserved form (C04's matter), so replacements carry no "/" key
+					noSlashKeys(v)
 					return v
 				}
 				pick := func(filter func(p pinfo) bool) (pinfo, bool) {
